@@ -13,7 +13,8 @@ EXPLANATION = (
     'are called, and the guard is dropped before the spawner, the executor or process() run (no re-entry while the model is '
     'locked); R03.c every struct field that carries the Event parameter is a FIFO channel endpoint, and an event travels from its '
     'receive to update by direct moves; R03.d no unsafe block or unsafe impl exists in the runtime crates (the type-level '
-    'arguments lean on this); the linear rule of C01 gives "exactly once". Order between events of different tasks is not decided.')
+    'arguments lean on this); R03.f every run of the executor inside Core::process is followed by a look at the event channel before the call '
+    'returns, so events emitted during a call are applied by that call in emission order; the linear rule of C01 gives "exactly once". Order between events of different tasks is not decided.')
 
 FIFO_CARRIERS = re.compile(
     r'^(crossbeam_channel::channel::(Sender|Receiver)|crux_core::capability::channel::(Sender|Receiver)|'
@@ -77,7 +78,7 @@ def lock_regions(fn, lock_names):
 def check(ctx, rep):
     rep.rule('R03.a', 'App::update takes the model from a write guard of the core\'s model lock, App::view from a read guard', floor=2)
     rep.rule('R03.b', 'inside a model write-lock region only expect/deref_mut and one update are called; the guard is released before anything else runs', floor=1)
-    rep.rule('R03.c', 'every carrier of the Event parameter is a FIFO channel endpoint or tabled; events move directly from receive to update', floor=10)
+    rep.rule('R03.c', 'every carrier of the Event parameter is a FIFO channel endpoint or tabled; events move directly from receive to update', floor=5)
     rep.rule('R03.d', 'no unsafe block or unsafe impl in the runtime crates', floor=4)
     rep.rule('R03.e', 'no event value is dropped on a normal path (linear rule of C01, restricted to events)', floor=1)
     core = ctx.crate('default', 'crux_core')
@@ -174,6 +175,26 @@ def check(ctx, rep):
                                        o.suffix == ['as Some', '.0'] and not [s for s in o.steps if s[0] != 'ref'] for o in src)
             rep.expect('R03.c', direct, 'process|receive-to-update', 'the event passed to update is the Some payload of receive(), moved directly',
                        'Core::process: the event given to update does not come directly from the event channel (%s)' % [repr(o) for o in src])
+    # R03.f: every event emitted during the call is applied before it returns (shared with C01 R01.a)
+    rep.rule('R03.f', 'Core::process applies every queued event before it returns: each run of the executor is followed by a look at the event channel', floor=2)
+    from rules.common import Summaries
+    if fs:
+        f = fs[0]
+        sm = Summaries([core])
+        run_all = sm.sites(f, ['QueuingExecutor::run_all'], 'must')
+        recvs = [(bb, t) for bb, t in f.calls('capability::channel::Receiver::receive', 'capability::channel::Receiver::try_receive')]
+        rets = f.return_blocks()
+        if len(recvs) == 1 and run_all:
+            ne = c01.none_edges_of(f, *recvs[0])
+            rep.expect('R03.f', bool(ne) and all(r not in f.reachable([0], removed_edges=ne) for r in rets), 'return-only-when-empty',
+                       'the return is reachable only through the None edge of the event receive',
+                       'Core::process can return while events are still queued')
+            rep.expect('R03.f', bool(ne) and all(f.all_paths_pass(b, rets, via_edges=ne) for b in run_all), 'look-after-every-run',
+                       'every path from a run of the executor to the return passes the None edge of the event receive',
+                       'Core::process can run tasks and return without looking at the event channel again: the events they emitted are '
+                       'not applied by this call, and a later shell event is applied before them')
+        else:
+            rep.bad('R03.f', 'shape', 'Core::process: expected one event receive and at least one run_all')
     # R03.d
     for name in ['crux_core', 'crux_http', 'crux_kv', 'crux_time', 'crux_platform']:
         c = ctx.crate('default', name)
